@@ -46,6 +46,14 @@ def gen_case(rng, tier="quick"):
         m["alpha"] = _r(rng, 0.05, 0.6)
         m["energies"] = [_r(rng, -1.5, 1.5) for _ in range(d)]
         m["coupling"] = [_r(rng, -1.0, 1.0) for _ in range(d)]
+        if rng.random() < 0.4:
+            # exactly degenerate coupling eigenvalues / energies, zeros and
+            # sign-symmetric pairs (the degeneracy bookkeeping of the
+            # imaginary-time back-end)
+            grid = [-1.0, -0.5, 0.0, 0.5, 1.0]
+            m["coupling"] = [_pick(rng, grid) for _ in range(d)]
+            if rng.random() < 0.5:
+                m["energies"] = [_pick(rng, grid) for _ in range(d)]
     elif kind == "zero":
         m["alpha"] = _pick(rng, [0.0, 0.3])
         m["coupling"] = [0.0] * d if m["alpha"] else \
